@@ -216,7 +216,7 @@ class ProgramResult:
         self.holes = holes
 
 
-def run_program(session, tree_factory, order=None, runs=1, max_paths=64, set_order="insertion"):
+def run_program(session, tree_factory, order=None, runs=1, max_paths=64, set_order="insertion", fresh_output=False):
     """Abstractly run ProtocolCodeGenerator(input).generate(output) `runs` times on one instance over the tree
     returned by tree_factory() ({dir: protocol Elem}); returns Outcomes whose value is a list of ProgramResult."""
     from .natives import PathObj
@@ -238,6 +238,7 @@ def run_program(session, tree_factory, order=None, runs=1, max_paths=64, set_ord
             World.trace["consulted_output"] = []
             World.trace["encodings"] = []
             World.trace["set_order"] = set_order
+            World.trace["fresh_output"] = fresh_output
             it.call(it.getattr(gen, "generate"), [PathObj("/out")], {})
             sk = _Renderer()
             for f in World.trace["files"]:
